@@ -539,3 +539,100 @@ Proof.
     rewrite E. destruct c; discriminate.
   - discriminate.
 Qed.
+
+(* ---------- nth_from_end: the shift register ---------- *)
+Fixpoint enc_bits (s b : nat) (n q : nat) : word :=      (* least significant bit first *)
+  match n with
+  | 0 => []
+  | S m => (if Nat.eqb (q mod 2) 1 then s else b) :: enc_bits s b m (q / 2)
+  end.
+
+Lemma enc_bits_val s b : b <> s -> forall n q, q < Nat.pow 2 n -> bits s (enc_bits s b n q) = q.
+Proof.
+  intro Hb. induction n as [|m IH]; intros q Hq.
+  - simpl in *. lia.
+  - cbn [enc_bits bits]. rewrite IH.
+    + unfold bit. pose proof (Nat.div_mod q 2 ltac:(lia)) as E. pose proof (Nat.mod_upper_bound q 2 ltac:(lia)) as Hm.
+      destruct (Nat.eqb (q mod 2) 1) eqn:E1.
+      * apply Nat.eqb_eq in E1. rewrite Nat.eqb_refl. lia.
+      * apply Nat.eqb_neq in E1. assert (Eb : Nat.eqb b s = false) by (apply Nat.eqb_neq; exact Hb). rewrite Eb. lia.
+    + apply Nat.div_lt_upper_bound; [lia|]. simpl in Hq. lia.
+Qed.
+
+Lemma enc_bits_over syms s b n : In s syms -> In b syms -> forall q, overb syms (enc_bits s b n q) = true.
+Proof.
+  intros Hs Hb. assert (Es : memb s syms = true) by (apply memb_In; exact Hs).
+  assert (Eb : memb b syms = true) by (apply memb_In; exact Hb).
+  induction n as [|m IH]; intro q; [reflexivity|]. cbn [enc_bits].
+  destruct (Nat.eqb (q mod 2) 1); simpl overb; [rewrite Es|rewrite Eb]; rewrite IH; reflexivity.
+Qed.
+
+Lemma shift_zeros s b n : b <> s -> forall k q, q < Nat.pow 2 n ->
+  arun (nth_end_f s n) (Some q) (repeat b k) = Some ((q * Nat.pow 2 k) mod Nat.pow 2 n).
+Proof.
+  intro Hb. pose proof (pow2_pos n) as HN.
+  assert (Eb : Nat.eqb b s = false) by (apply Nat.eqb_neq; exact Hb).
+  induction k as [|k IH]; intros q Hq.
+  - simpl. rewrite Nat.mul_1_r, Nat.mod_small by exact Hq. reflexivity.
+  - simpl repeat. rewrite arun_cons. cbn [astep]. unfold nth_end_f at 2. rewrite Eb, Nat.add_0_r.
+    rewrite IH by (apply Nat.mod_upper_bound; lia). f_equal.
+    rewrite Nat.mul_mod_idemp_l by lia. f_equal. simpl. lia.
+Qed.
+
+Lemma top_dist : forall n q1 q2, q1 < Nat.pow 2 n -> q2 < Nat.pow 2 n -> q1 <> q2 ->
+  exists k, Nat.leb (Nat.div (Nat.pow 2 n) 2) ((q1 * Nat.pow 2 k) mod Nat.pow 2 n)
+            <> Nat.leb (Nat.div (Nat.pow 2 n) 2) ((q2 * Nat.pow 2 k) mod Nat.pow 2 n).
+Proof.
+  induction n as [|m IH]; intros q1 q2 H1 H2 Hne; [simpl in *; lia|].
+  rewrite half_pow2. pose proof (pow2_pos m) as HM.
+  destruct (Bool.bool_dec (Nat.leb (Nat.pow 2 m) q1) (Nat.leb (Nat.pow 2 m) q2)) as [Esame|Ediff].
+  - (* same top bit: drop it *)
+    set (r1 := q1 mod Nat.pow 2 m). set (r2 := q2 mod Nat.pow 2 m).
+    assert (Hr1 : r1 < Nat.pow 2 m) by (apply Nat.mod_upper_bound; lia).
+    assert (Hr2 : r2 < Nat.pow 2 m) by (apply Nat.mod_upper_bound; lia).
+    assert (Hr : r1 <> r2).
+    { unfold r1, r2. intro E. apply Hne.
+      pose proof (Nat.div_mod q1 (Nat.pow 2 m) ltac:(lia)) as D1. pose proof (Nat.div_mod q2 (Nat.pow 2 m) ltac:(lia)) as D2.
+      assert (Hd1 : q1 / Nat.pow 2 m < 2) by (apply Nat.div_lt_upper_bound; [lia|simpl in H1; lia]).
+      assert (Hd2 : q2 / Nat.pow 2 m < 2) by (apply Nat.div_lt_upper_bound; [lia|simpl in H2; lia]).
+      destruct (Nat.leb (Nat.pow 2 m) q1) eqn:L1; symmetry in Esame.
+      - apply Nat.leb_le in L1, Esame.
+        assert (q1 / Nat.pow 2 m = 1) by (destruct (q1 / Nat.pow 2 m) as [|[|?]]; [nia|reflexivity|lia]).
+        assert (q2 / Nat.pow 2 m = 1) by (destruct (q2 / Nat.pow 2 m) as [|[|?]]; [nia|reflexivity|lia]). nia.
+      - apply Nat.leb_gt in L1, Esame.
+        assert (q1 / Nat.pow 2 m = 0) by (destruct (q1 / Nat.pow 2 m) as [|?]; [reflexivity|nia]).
+        assert (q2 / Nat.pow 2 m = 0) by (destruct (q2 / Nat.pow 2 m) as [|?]; [reflexivity|nia]). nia. }
+    destruct m as [|m'].
+    + simpl in Hr1, Hr2. lia.
+    + destruct (IH r1 r2 Hr1 Hr2 Hr) as [k Hk]. rewrite half_pow2 in Hk. exists (S k).
+      assert (Hstep : forall q, (q * Nat.pow 2 (S k)) mod Nat.pow 2 (S (S m'))
+                               = 2 * (((q mod Nat.pow 2 (S m')) * Nat.pow 2 k) mod Nat.pow 2 (S m'))).
+      { intro q. replace (q * Nat.pow 2 (S k)) with (2 * (q * Nat.pow 2 k)) by (simpl; lia).
+        replace (Nat.pow 2 (S (S m'))) with (2 * Nat.pow 2 (S m')) by (simpl; lia).
+        rewrite Nat.mul_mod_distr_l by lia. rewrite Nat.mul_mod_idemp_l by lia. reflexivity. }
+      rewrite !Hstep. fold r1 r2.
+      assert (Hleb : forall y, Nat.leb (Nat.pow 2 (S m')) (2 * y) = Nat.leb (Nat.pow 2 m') y).
+      { intro y. apply eq_true_iff_eq. rewrite !Nat.leb_le. simpl. lia. }
+      rewrite !Hleb. exact Hk.
+  - exists 0. simpl Nat.pow at 2 4. rewrite !Nat.mul_1_r, !Nat.mod_small by assumption. exact Ediff.
+Qed.
+
+Theorem nth_from_end_is_minimal syms s n m : NoDup syms -> nth_from_end_m syms s n = Ok m -> is_minimal m = true.
+Proof.
+  intros Hnd H. pose proof H as Hok. apply nth_guard_cases in H. destruct H as [Hn [Hs [[Hl ->]|[Hl ->]]]].
+  - apply (of_length_is_minimal syms n None None s); [exact Hnd|exact Hs|exact Hs|exact I].
+  - assert (H2 : 2 <= length syms) by (destruct syms as [|x [|y r]]; simpl in *; try lia; destruct Hs).
+    destruct (exists_other syms s Hnd H2) as [b [Hb Hbs]].
+    pose proof (pow2_pos n) as HN.
+    apply table_is_minimal.
+    + exact HN.
+    + intros q a t _ _ E. eapply nth_end_closed. exact E.
+    + eapply nth_from_end_valid; eassumption.
+    + intros q Hq. exists (rev (enc_bits s b n q)). split.
+      * rewrite overb_rev. apply enc_bits_over; assumption.
+      * rewrite shift_arun, rev_involutive, (enc_bits_val s b Hbs n q Hq), Nat.mod_small by exact Hq. reflexivity.
+    + intros q1 q2 H12 Hq2. destruct (top_dist n q1 q2 ltac:(lia) Hq2 ltac:(lia)) as [k Hk].
+      exists (repeat b k). split; [apply overb_repeat; exact Hb|].
+      rewrite !(shift_zeros s b n Hbs) by lia. cbn [afin]. exact Hk.
+    + discriminate.
+Qed.
